@@ -211,7 +211,7 @@ class ActionConfigFile(Action):
             with change_to_path_dir(cfg_path):
                 cfg_merged = parser.merge_config(cfg_file, cfg)
             cfg.__dict__.update(cfg_merged.__dict__)
-            if cfg.get(dest) is None:
+            if not isinstance(cfg.get(dest), list):  # None, or a value for the config key given inside a config
                 cfg[dest] = []
             cfg[dest].append(cfg_path)
 
